@@ -195,12 +195,13 @@ theorem fixed_sparseRows :
 consistently in one documented format, evaluated as SequentialCB does (`predict`, then `learn` with what predict
 returned): interaction by interaction the parsed (action, prob, kwargs) is the intended one - on the actions the learner is
 given, generator state and memoised layout/format threaded through - and every `learn` receives the action, probability,
-reward and the kwargs of its own predict (one call with a column per key, or per row that row's finite map).  By
+reward and the kwargs of its own predict (one call with a column per key, or per row that row's finite map) - whether
+the learner's `learn` takes batches (`batchable`) is independent of what its `predict` does with them.  By
 induction over the history from `inv_preserved` and the per-call theorems. -/
-theorem history_roundtrip (fx : Fixes) (sp : Spec) (pol : Policy) (batched : Bool) (h : List (Arg × PyVal)) (st : State)
+theorem history_roundtrip (fx : Fixes) (sp : Spec) (pol : Policy) (batched batchable : Bool) (h : List (Arg × PyVal)) (st : State)
     (hinv : Inv sp batched st) (hok : histOK fx sp pol batched st h = true) :
-    HistDelivers fx sp pol st h (runHistory fx (scripted sp pol) (sp.layout != .single) st h) :=
-  history_roundtrip' fx sp pol batched h st hinv hok
+    HistDelivers fx sp pol batchable st h (runHistory fx (scripted sp pol) batchable st h) :=
+  history_roundtrip' fx sp pol batched batchable h st hinv hok
 
 /-- **kwargs are finite maps** (no "same key order" hypothesis any more: `sameKeys` only asks for the same key SET):
 whatever order the rows list their keys in, what row j gets back - the j-th entry of every column under the first row's
